@@ -747,17 +747,95 @@ Proof.
   - unfold parse_at_rule_declaration_list. rewrite skip_semicolons_none by exact H1. cbn [pbind]. cbv zeta. rewrite H2, H3. reflexivity.
 Qed.
 
+(* --- stray semicolons ----------------------------------------------------------------------------------------------- *)
+(* what comes before the first token of a unit in a declaration block: any number of ';' , each after a gap, then a gap;
+   parseQualifiedRuleDeclarationList / parseAtRuleDeclarationList skip the semicolons without reporting a unit *)
+Definition semi : tok := (TSemicolon, [59]).
+Definition semis (gs : list ws_t) : list tok := flat_map (fun g => optws g ++ [semi]) gs.
+Definition stream (gs : list ws_t) (o : ws_t) : list tok := semis gs ++ optws o.
+Definition first_gap (gs : list ws_t) (o : ws_t) : ws_t := match gs with g :: _ => g | [] => o end.
+
+Definition dispatch (st : list pstate) (F : nat) (q : parser) : pres (gtype * parser) :=
+  match st with
+  | [] => PPanic
+  | SStylesheet :: _ => parse_stylesheet F q
+  | SDeclarationList :: _ => parse_declaration_list F q
+  | SAtRuleRuleList :: _ => parse_at_rule_rule_list F q
+  | SAtRuleDeclarationList :: _ => parse_at_rule_declaration_list F q
+  | SAtRuleUnknown :: _ => parse_at_rule_unknown q
+  | SQualifiedRuleDeclarationList :: _ => parse_qualified_rule_declaration_list F q
+  end.
+
+Lemma stream_len gs o : (length gs <= length (stream gs o))%nat.
+Proof.
+  unfold stream, semis. rewrite app_length. induction gs as [|g gs IH]; cbn [flat_map length]; [lia|].
+  rewrite !app_length. cbn [length]. lia.
+Qed.
+
+(* the loop that skips semicolons *)
+Lemma skip_run F t b ts o : plain_tok t = true -> t <> TSemicolon -> forall gs f q, cinv F (pl q) -> keepws q = false ->
+  ptt q = TSemicolon -> lexes (pl q) (stream gs o ++ (t, b) :: ts) -> (length gs < f)%nat ->
+  exists z' w c, skip_semicolons f F q = POk (set_tok (relex q z' w c) t b) /\ lexes z' ts /\ cinv F z'.
+Proof.
+  intros Hp Hns. induction gs as [|g gs IH]; intros f q Hi Hkw Hsemi Hl Hf; (destruct f as [|f]; [lia|]);
+    rewrite skip_semicolons_eq, Hsemi; change (is_t TSemicolon TSemicolon) with true; cbv beta iota.
+  - unfold stream, semis in Hl. cbn [flat_map app] in Hl.
+    destruct (pop_token_ows F false q o t b ts Hi Hkw Hl Hp (fun _ => eq_refl)) as (z' & Hpop & Hl' & Hi').
+    rewrite Hpop. cbn [pbind fst snd]. rewrite skip_semicolons_eq. cbn [set_tok ptt].
+    replace (is_t t TSemicolon) with false by (symmetry; apply is_t_neq; exact Hns).
+    exists z', (isws o), (iscm o). auto.
+  - unfold stream, semis in Hl. cbn [flat_map] in Hl. repeat (rewrite <- app_assoc in Hl; cbn [app] in Hl).
+    destruct (pop_token_ows F false q g TSemicolon [59] _ Hi Hkw Hl eq_refl (fun _ => eq_refl)) as (z1 & Hpop & Hl1 & Hi1).
+    rewrite Hpop. cbn [pbind fst snd].
+    set (q1 := set_tok (relex q z1 (isws g) (iscm g)) TSemicolon [59]).
+    destruct (IH f q1) as (z' & w & c & Hrun & Hl' & Hi'); [exact Hi1|exact Hkw|reflexivity|unfold stream, semis; rewrite <- app_assoc; exact Hl1|cbn [length] in Hf; lia|].
+    exists z', w, c. rewrite Hrun. split; [|split; assumption]. destruct q; reflexivity.
+Qed.
+
+(* the first pop of Next in any state, with stray semicolons (gs) only in a declaration block *)
+Lemma first_pop p s st0 gs o t b ts : wf_state p (s :: st0) (stream gs o ++ (t, b) :: ts) -> (gs = [] \/ decl_ctx s) ->
+  gap_at (s :: st0) (first_gap gs o) -> plain_tok t = true -> t <> TSemicolon ->
+  exists z' w c, parse_next p = dispatch (s :: st0) (next_fuel p) (set_tok (relex (set_buf (set_err p false) []) z' w c) t b) /\
+    lexes z' ts /\ cinv (next_fuel p) z'.
+Proof.
+  intros (Hi & Hl & Hst & Hlv & Hpe & Hkw & Hsty) Hgs Hg Hp Hns.
+  unfold parse_next. cbv zeta. change (prevend (set_buf (set_err p false) [])) with (prevend p). rewrite Hpe.
+  destruct gs as [|g gs].
+  - unfold stream, semis in Hl. cbn [flat_map app first_gap] in *.
+    destruct (pop_token_ows (next_fuel p) true (set_buf (set_err p false) []) o t b ts (next_fuel_ok p Hi) Hkw Hl Hp
+                (cm_out_no _ _ true (set_buf (set_err p false) []) Hg Hst)) as (z1 & Hpop & Hl1 & Hi1).
+    rewrite Hpop. cbn [pbind fst snd]. cbn [set_tok relex set_err pst set_buf]. rewrite Hst.
+    exists z1, (isws o), (iscm o). split; [reflexivity|split; assumption].
+  - destruct Hgs as [Hgs|Hctx]; [discriminate Hgs|]. cbn [first_gap] in Hg.
+    pose proof (lexes_len _ _ Hi Hl) as Hlen.
+    unfold stream, semis in Hl. cbn [flat_map] in Hl. repeat (rewrite <- app_assoc in Hl; cbn [app] in Hl).
+    destruct (pop_token_ows (next_fuel p) true (set_buf (set_err p false) []) g TSemicolon [59] _ (next_fuel_ok p Hi) Hkw Hl eq_refl
+                (cm_out_no _ _ true (set_buf (set_err p false) []) Hg Hst)) as (z1 & Hpop & Hl1 & Hi1).
+    rewrite Hpop. cbn [pbind fst snd]. cbn [set_tok relex set_err pst set_buf]. rewrite Hst.
+    set (q1 := set_tok (relex (set_buf (set_err p false) []) z1 (isws g) (iscm g)) TSemicolon [59]).
+    assert (Hf : (length gs < next_fuel p)%nat).
+    { rewrite app_length in Hlen. pose proof (stream_len (g :: gs) o) as Hs. cbn [length] in Hs. unfold next_fuel. clear - Hlen Hs. lia. }
+    assert (Hl1' : lexes (pl q1) (stream gs o ++ (t, b) :: ts)) by (unfold stream, semis; rewrite <- app_assoc; exact Hl1).
+    destruct (skip_run (next_fuel p) t b ts o Hp Hns gs (next_fuel p) q1 Hi1 Hkw eq_refl Hl1' Hf) as (z' & w & c & Hrun & Hl' & Hi').
+    exists z', w, c. split; [|split; assumption].
+    assert (Hskip2 : skip_semicolons (next_fuel p) (next_fuel p) (set_tok (relex (set_buf (set_err p false) []) z' w c) t b) =
+                     POk (set_tok (relex (set_buf (set_err p false) []) z' w c) t b)) by (apply skip_semicolons_none; exact Hns).
+    assert (Hq : set_tok (relex q1 z' w c) t b = set_tok (relex (set_buf (set_err p false) []) z' w c) t b) by reflexivity.
+    rewrite Hq in Hrun. unfold dispatch.
+    destruct Hctx as [-> | ->]; [unfold parse_qualified_rule_declaration_list|unfold parse_at_rule_declaration_list];
+      rewrite Hrun, Hskip2; reflexivity.
+Qed.
+
 (* Next in a declaration list, on a property name: everything up to the loop of parseDeclaration *)
-Lemma decl_head p s st0 o1 prop ts : decl_ctx s -> gap_at (s :: st0) o1 -> wf_state p (s :: st0) (optws o1 ++ (TIdent, prop) :: ts) ->
+Lemma decl_head p s st0 gs o1 prop ts : decl_ctx s -> gap_at (s :: st0) (first_gap gs o1) ->
+  wf_state p (s :: st0) (stream gs o1 ++ (TIdent, prop) :: ts) ->
   exists p0, parse_next p = declaration_loop (next_fuel p) (next_fuel p) p0 /\ cinv (next_fuel p) (pl p0) /\ lexes (pl p0) ts /\
     pbuf p0 = [(TIdent, prop)] /\ ptt p0 = TIdent /\ pdata p0 = prop /\ pst p0 = s :: st0 /\
     plevel p0 = 0 /\ prevend p0 = false /\ keepws p0 = false /\ isstyle p0 = true /\ perr p0 = false.
 Proof.
-  intros Hctx Hg (Hi & Hl & Hst & Hlv & Hpe & Hkw & Hsty).
-  unfold parse_next. cbv zeta. change (prevend (set_buf (set_err p false) [])) with (prevend p). rewrite Hpe.
-  destruct (pop_token_ows (next_fuel p) true (set_buf (set_err p false) []) o1 TIdent prop ts (next_fuel_ok p Hi) Hkw Hl eq_refl (cm_out_no _ _ true (set_buf (set_err p false) []) Hg Hst))
-    as (z1 & Hpop & Hl1 & Hi1).
-  rewrite Hpop. cbn [pbind fst snd]. cbn [set_tok relex set_err pst set_buf]. rewrite Hst.
+  intros Hctx Hg Hw. pose proof Hw as (Hi & Hl & Hst & Hlv & Hpe & Hkw & Hsty).
+  destruct (first_pop p s st0 gs o1 TIdent prop ts Hw (or_intror Hctx) Hg eq_refl ltac:(discriminate)) as (z1 & w & c & Hfp & Hl1 & Hi1).
+  rewrite Hfp. unfold dispatch.
   rewrite (decl_dispatch s st0 _ _ Hctx) by (cbn [set_tok ptt]; first [discriminate|reflexivity]).
   unfold parse_declaration_list. cbn [set_tok ptt]. evis. cbn [pbind].
   rewrite skip_semicolons_none by (cbn; discriminate). cbn [pbind set_tok ptt]. evis. cbn [pbind orb]. cbv zeta. cbn [set_tok ptt]. evis.
@@ -768,15 +846,15 @@ Proof.
 Qed.
 
 (* a declaration  ident ':' value-tokens ';'  inside a ruleset, with optional whitespace before each of its tokens *)
-Lemma step_decl p s st0 o1 prop o2 c vl o4 tb ts : decl_ctx s -> gap_at (s :: st0) o1 -> term_ok tb ->
+Lemma step_decl p s st0 gs o1 prop o2 c vl o4 tb ts : decl_ctx s -> gap_at (s :: st0) (first_gap gs o1) -> term_ok tb ->
   wf_state p (s :: st0)
-           (optws o1 ++ (TIdent, prop) :: optws o2 ++ (TColon, c) :: src_toks vl ++ optws o4 ++ tb :: ts) ->
+           (stream gs o1 ++ (TIdent, prop) :: optws o2 ++ (TColon, c) :: src_toks vl ++ optws o4 ++ tb :: ts) ->
   toks_ok 0 vl -> lv_after 0 vl = 0 ->
   exists p', parse_next p = POk (GDeclaration, p') /\ ptt p' = TIdent /\ pdata p' = to_lower prop /\
     pbuf p' = expected_vals vl /\ perr p' = false /\ wf_after tb p' (s :: st0) ts.
 Proof.
   intros Hctx Hg Hterm Hw Hok Hlv0. pose proof Hw as (Hi & Hl & _).
-  destruct (decl_head p s st0 o1 prop _ Hctx Hg Hw) as (p0 & Hpn & Hi0 & Hl0 & Hb0 & Ht0 & Hd0 & Hst0 & Hlv & Hpe0 & Hkw0 & Hsty0 & Herr0).
+  destruct (decl_head p s st0 gs o1 prop _ Hctx Hg Hw) as (p0 & Hpn & Hi0 & Hl0 & Hb0 & Ht0 & Hd0 & Hst0 & Hlv & Hpe0 & Hkw0 & Hsty0 & Herr0).
   (* fuel *)
   assert (HN : exists f', next_fuel p = S (length vl + S f')).
   { pose proof (lexes_len _ _ Hi Hl) as Hlen. eapply fuel_split; [exact Hlen|].
@@ -880,20 +958,26 @@ Proof.
   - assert (b0 = b) by congruence. subst b0. destruct b as [|c b']; [|eauto]. change (len (@nil Z)) with 0 in Hlen. lia.
 Qed.
 
-Lemma nest_head p s st0 o1 t1 b1 ts : decl_ctx s -> gap_at (s :: st0) o1 -> wf_state p (s :: st0) (optws o1 ++ (t1, b1) :: ts) ->
+Lemma nest_head p s st0 gs o1 t1 b1 ts : decl_ctx s -> gap_at (s :: st0) (first_gap gs o1) ->
+  wf_state p (s :: st0) (stream gs o1 ++ (t1, b1) :: ts) ->
   nest_first (t1, b1) = true ->
   exists p0, parse_next p = declaration_loop (next_fuel p) (next_fuel p) p0 /\ cinv (next_fuel p) (pl p0) /\ lexes (pl p0) ts /\
     pbuf p0 = [(t1, b1)] /\ ptt p0 = t1 /\ pdata p0 = b1 /\ pst p0 = s :: st0 /\
     plevel p0 = tok_lv 0 t1 /\ prevend p0 = false /\ keepws p0 = false /\ isstyle p0 = true /\ perr p0 = false.
 Proof.
-  intros Hctx Hg (Hi & Hl & Hst & Hlv & Hpe & Hkw & Hsty) Hfirst. unfold nest_first in Hfirst. cbn [fst snd] in Hfirst.
+  intros Hctx Hg Hw Hfirst. pose proof Hw as (Hi & Hl & Hst & Hlv & Hpe & Hkw & Hsty). unfold nest_first in Hfirst. cbn [fst snd] in Hfirst.
   assert (Hp1 : plain_tok t1 = true) by (destruct t1; try discriminate Hfirst; reflexivity).
-  unfold parse_next. cbv zeta. change (prevend (set_buf (set_err p false) [])) with (prevend p). rewrite Hpe.
-  destruct (pop_token_ows (next_fuel p) true (set_buf (set_err p false) []) o1 t1 b1 ts (next_fuel_ok p Hi) Hkw Hl Hp1 (cm_out_no _ _ true (set_buf (set_err p false) []) Hg Hst))
-    as (z1 & Hpop & Hl1 & Hi1).
+  assert (Hns1 : t1 <> TSemicolon) by (destruct t1; try discriminate Hfirst; discriminate).
+  destruct (first_pop p s st0 gs o1 t1 b1 ts Hw (or_intror Hctx) Hg Hp1 Hns1) as (z1 & w & cf & Hfp & Hl1 & Hi1).
   assert (Hne : exists c b', b1 = c :: b').
-  { destruct (lexes_skip o1 _ _ Hi Hl) as (z0 & Hi0 & Hl0). apply (lexes_nonempty z0 t1 b1 ts Hi0 Hl0). }
-  rewrite Hpop. cbn [pbind fst snd]. cbn [set_tok relex set_err pst set_buf]. rewrite Hst.
+  { unfold stream, semis in Hl. rewrite <- app_assoc in Hl.
+    assert (Hsk : forall gs0 z0 L, css_inv z0 -> lexes z0 (flat_map (fun g => optws g ++ [semi]) gs0 ++ L) -> exists z', css_inv z' /\ lexes z' L).
+    { induction gs0 as [|g0 gs0 IHg]; intros z0 L Hi0 Hl0; cbn [flat_map app] in Hl0; [eauto|].
+      rewrite <- !app_assoc in Hl0. destruct (lexes_skip g0 _ _ Hi0 Hl0) as (z2 & Hi2 & Hl2). cbn [app] in Hl2.
+      destruct (lexes_cons _ _ _ _ Hl2) as (z3 & Hn3 & Hl3 & _). apply (IHg z3 L); [eapply css_inv_next; eassumption|exact Hl3]. }
+    destruct (Hsk gs _ _ Hi Hl) as (z2 & Hi2 & Hl2). destruct (lexes_skip o1 _ _ Hi2 Hl2) as (z0 & Hi0 & Hl0).
+    apply (lexes_nonempty z0 t1 b1 ts Hi0 Hl0). }
+  rewrite Hfp. unfold dispatch.
   rewrite (decl_dispatch s st0 _ _ Hctx) by (cbn [set_tok ptt]; destruct t1; try discriminate Hfirst; first [discriminate|reflexivity]).
   destruct (is_t t1 TDelim) eqn:Ed.
   - apply is_t_eq in Ed. subst t1. cbn in Hfirst. apply negb_true_iff in Hfirst. destruct Hne as (c & b' & ->). cbn [hd0] in Hfirst.
@@ -916,16 +1000,16 @@ Proof.
 Qed.
 
 (* a nested ruleset: selector tokens, '{' *)
-Lemma step_nested p s st0 o1 t1 b1 (sl : list wtok) o2 lb ts : decl_ctx s -> gap_at (s :: st0) o1 ->
-  wf_state p (s :: st0) (src_toks ((o1, (t1, b1)) :: sl) ++ optws o2 ++ (TLeftBrace, lb) :: ts) ->
+Lemma step_nested p s st0 gs o1 t1 b1 (sl : list wtok) o2 lb ts : decl_ctx s -> gap_at (s :: st0) (first_gap gs o1) ->
+  wf_state p (s :: st0) (stream gs o1 ++ (t1, b1) :: src_toks sl ++ optws o2 ++ (TLeftBrace, lb) :: ts) ->
   nest_first (t1, b1) = true -> toks_ok 0 ((o1, (t1, b1)) :: sl) -> lv_after 0 ((o1, (t1, b1)) :: sl) = 0 ->
   exists p', parse_next p = POk (GBeginRuleset, p') /\ ptt p' = TWhitespace /\ pdata p' = [] /\
     pbuf p' = expected_sel true ((o1, (t1, b1)) :: sl) /\ perr p' = false /\
     wf_state p' (SQualifiedRuleDeclarationList :: s :: st0) ts.
 Proof.
   intros Hctx Hg Hw Hfirst Hok Hlv0. pose proof Hw as (Hi & Hl & _).
-  rewrite src_toks_cons in Hw, Hl. cbn [toks_ok fst snd] in Hok. destruct Hok as (Hv1 & Hok). cbn [lv_after fst snd] in Hlv0.
-  destruct (nest_head p s st0 o1 t1 b1 _ Hctx Hg Hw Hfirst) as (p0 & Hpn & Hi0 & Hl0 & Hb0 & Ht0 & Hd0 & Hst0 & Hlv & Hpe0 & Hkw0 & Hsty0 & Herr0).
+  cbn [toks_ok fst snd] in Hok. destruct Hok as (Hv1 & Hok). cbn [lv_after fst snd] in Hlv0.
+  destruct (nest_head p s st0 gs o1 t1 b1 _ Hctx Hg Hw Hfirst) as (p0 & Hpn & Hi0 & Hl0 & Hb0 & Ht0 & Hd0 & Hst0 & Hlv & Hpe0 & Hkw0 & Hsty0 & Herr0).
   destruct (vtok_ok_inv _ _ Hv1) as (_ & _ & _ & _ & _ & _ & Hws1).
   assert (HN : exists f', next_fuel p = S (length sl + S f')).
   { pose proof (lexes_len _ _ Hi Hl) as Hlen. eapply fuel_split; [exact Hlen|].
@@ -1074,24 +1158,23 @@ Proof.
 Qed.
 
 (* a custom property  --name ':' raw-tokens ';'  : the value is the exact source text *)
-Lemma step_custom p s st0 o1 name o2 c (raw : list tok) tb ts : custom_ctx s -> gap_at (s :: st0) o1 -> term_ok tb ->
+Lemma step_custom p s st0 gs o1 name o2 c (raw : list tok) tb ts : custom_ctx s -> (gs = [] \/ decl_ctx s) ->
+  gap_at (s :: st0) (first_gap gs o1) -> term_ok tb ->
   wf_state p (s :: st0)
-           (optws o1 ++ (TCustomPropertyName, name) :: optws o2 ++ (TColon, c) :: raw ++ tb :: ts) ->
+           (stream gs o1 ++ (TCustomPropertyName, name) :: optws o2 ++ (TColon, c) :: raw ++ tb :: ts) ->
   raw_ok 0 raw -> raw_lv 0 raw = 0 ->
   exists p', parse_next p = POk (GCustomProperty, p') /\ ptt p' = TCustomPropertyName /\ pdata p' = name /\
     pbuf p' = [(TCustomPropertyValue, concat (map snd raw))] /\ perr p' = false /\
     wf_after tb p' (s :: st0) ts.
 Proof.
-  intros Hctx Hg Hterm (Hi & Hl & Hst & Hlv & Hpe & Hkw & Hsty) Hok Hlv0.
+  intros Hctx Hgs Hg Hterm Hw Hok Hlv0. pose proof Hw as (Hi & Hl & Hst & Hlv & Hpe & Hkw & Hsty).
   assert (HN : exists f', next_fuel p = S (length raw + S f')).
   { pose proof (lexes_len _ _ Hi Hl) as Hlen. eapply fuel_split; [exact Hlen|].
     rewrite app_length. cbn [length]. rewrite app_length. cbn [length]. rewrite app_length. cbn [length].
     clear. unfold tok. lia. }
   destruct HN as (f' & HN). pose proof (next_fuel_ok p Hi) as HF.
-  unfold parse_next. cbv zeta. change (prevend (set_buf (set_err p false) [])) with (prevend p). rewrite Hpe.
-  destruct (pop_token_ows (next_fuel p) true (set_buf (set_err p false) []) o1 TCustomPropertyName name _ HF Hkw Hl eq_refl (cm_out_no _ _ true (set_buf (set_err p false) []) Hg Hst))
-    as (z1 & Hpop & Hl1 & Hi1).
-  rewrite Hpop. cbn [pbind fst snd]. cbn [set_tok relex set_err pst set_buf]. rewrite Hst.
+  destruct (first_pop p s st0 gs o1 TCustomPropertyName name _ Hw Hgs Hg eq_refl ltac:(discriminate)) as (z1 & wf & cf & Hfp & Hl1 & Hi1).
+  rewrite Hfp. unfold dispatch.
   rewrite (custom_dispatch s st0 _ _ Hctx) by reflexivity.
   unfold parse_custom_property.
   match goal with |- context [pop_token _ false ?q] => set (q0 := q) end.
@@ -1294,20 +1377,24 @@ Proof.
 Qed.
 
 (* Next on an at-keyword (anywhere but inside an unknown at-rule block): everything up to the loop of parseAtRule *)
-Lemma at_head p s st0 o1 name ts : s <> SAtRuleUnknown -> s <> SDeclarationList -> gap_at (s :: st0) o1 ->
-  wf_state p (s :: st0) (optws o1 ++ (TAtKeyword, name) :: ts) ->
+Lemma at_head p s st0 gs o1 name ts : s <> SAtRuleUnknown -> s <> SDeclarationList -> (gs = [] \/ decl_ctx s) ->
+  gap_at (s :: st0) (first_gap gs o1) -> wf_state p (s :: st0) (stream gs o1 ++ (TAtKeyword, name) :: ts) ->
   exists h p0, at_rule_h (to_lower name) = POk h /\
     parse_next p = at_rule_loop (next_fuel p) (next_fuel p) p0 h true false /\ cinv (next_fuel p) (pl p0) /\ lexes (pl p0) ts /\
     pbuf p0 = [] /\ ptt p0 = TAtKeyword /\ pdata p0 = to_lower name /\ pst p0 = s :: st0 /\
     plevel p0 = 0 /\ prevend p0 = false /\ keepws p0 = false /\ isstyle p0 = true /\ perr p0 = false.
 Proof.
-  intros Hs1 Hs2 Hg (Hi & Hl & Hst & Hlv & Hpe & Hkw & Hsty).
-  destruct (at_rule_h_total (to_lower name)) as (h & Hh); [rewrite len_to_lower; eapply lexes_at_len; eassumption|].
+  intros Hs1 Hs2 Hgs Hg Hw. pose proof Hw as (Hi & Hl & Hst & Hlv & Hpe & Hkw & Hsty).
+  destruct (at_rule_h_total (to_lower name)) as (h & Hh).
+  { rewrite len_to_lower. unfold stream, semis in Hl. rewrite <- app_assoc in Hl.
+    assert (Hsk : forall gs0 z0 L, css_inv z0 -> lexes z0 (flat_map (fun g => optws g ++ [semi]) gs0 ++ L) -> exists z', css_inv z' /\ lexes z' L).
+    { induction gs0 as [|g0 gs0 IHg]; intros z0 L Hi0 Hl0; cbn [flat_map app] in Hl0; [eauto|].
+      rewrite <- !app_assoc in Hl0. destruct (lexes_skip g0 _ _ Hi0 Hl0) as (z2 & Hi2 & Hl2). cbn [app] in Hl2.
+      destruct (lexes_cons _ _ _ _ Hl2) as (z3 & Hn3 & Hl3 & _). apply (IHg z3 L); [eapply css_inv_next; eassumption|exact Hl3]. }
+    destruct (Hsk gs _ _ Hi Hl) as (z2 & Hi2 & Hl2). eapply lexes_at_len; eassumption. }
   exists h.
-  unfold parse_next. cbv zeta. change (prevend (set_buf (set_err p false) [])) with (prevend p). rewrite Hpe.
-  destruct (pop_token_ows (next_fuel p) true (set_buf (set_err p false) []) o1 TAtKeyword name ts (next_fuel_ok p Hi) Hkw Hl eq_refl (cm_out_no _ _ true (set_buf (set_err p false) []) Hg Hst))
-    as (z1 & Hpop & Hl1 & Hi1).
-  rewrite Hpop. cbn [pbind fst snd]. cbn [set_tok relex set_err pst set_buf]. rewrite Hst.
+  destruct (first_pop p s st0 gs o1 TAtKeyword name ts Hw Hgs Hg eq_refl ltac:(discriminate)) as (z1 & wf & cf & Hfp & Hl1 & Hi1).
+  rewrite Hfp. unfold dispatch.
   rewrite (at_dispatch s st0 _ _ Hs1 Hs2) by reflexivity.
   rewrite parse_at_rule_eq. cbn [set_tok pdata ptt]. rewrite Hh. cbn [pbind].
   eexists. split; [reflexivity|]. split; [reflexivity|].
@@ -1316,15 +1403,16 @@ Proof.
 Qed.
 
 (* an at-rule: at-keyword, prelude tokens, then ';' or the '}' of the enclosing block (AtRule), or '{' (BeginAtRule) *)
-Lemma step_at p s st0 o1 name (pre : list wtok) o2 (tb : tok) ts : s <> SAtRuleUnknown -> s <> SDeclarationList -> gap_at (s :: st0) o1 ->
-  wf_state p (s :: st0) (optws o1 ++ (TAtKeyword, name) :: src_toks pre ++ optws o2 ++ tb :: ts) ->
+Lemma step_at p s st0 gs o1 name (pre : list wtok) o2 (tb : tok) ts : s <> SAtRuleUnknown -> s <> SDeclarationList ->
+  (gs = [] \/ decl_ctx s) -> gap_at (s :: st0) (first_gap gs o1) ->
+  wf_state p (s :: st0) (stream gs o1 ++ (TAtKeyword, name) :: src_toks pre ++ optws o2 ++ tb :: ts) ->
   toks_ok 0 pre -> lv_after 0 pre = 0 -> (term_ok tb \/ fst tb = TLeftBrace) ->
   exists p', parse_next p = POk (if is_t (fst tb) TLeftBrace then GBeginAtRule else GAtRule, p') /\
     ptt p' = TAtKeyword /\ pdata p' = to_lower name /\ pbuf p' = at_buf true false pre /\ perr p' = false /\
     (if is_t (fst tb) TLeftBrace then wf_state p' (at_st name :: s :: st0) ts else wf_after tb p' (s :: st0) ts).
 Proof.
-  intros Hs1 Hs2 Hg Hw Hok Hlv0 Htb. pose proof Hw as (Hi & Hl & _).
-  destruct (at_head p s st0 o1 name _ Hs1 Hs2 Hg Hw) as (h & p0 & Hh & Hpn & Hi0 & Hl0 & Hb0 & Ht0 & Hd0 & Hst0 & Hlv & Hpe0 & Hkw0 & Hsty0 & Herr0).
+  intros Hs1 Hs2 Hgs Hg Hw Hok Hlv0 Htb. pose proof Hw as (Hi & Hl & _).
+  destruct (at_head p s st0 gs o1 name _ Hs1 Hs2 Hgs Hg Hw) as (h & p0 & Hh & Hpn & Hi0 & Hl0 & Hb0 & Ht0 & Hd0 & Hst0 & Hlv & Hpe0 & Hkw0 & Hsty0 & Herr0).
   assert (HN : exists f', next_fuel p = S (length pre + S f')).
   { pose proof (lexes_len _ _ Hi Hl) as Hlen. eapply fuel_split; [exact Hlen|].
     rewrite app_length. cbn [length]. rewrite app_length. rewrite app_length. cbn [length]. pose proof (src_toks_len pre) as Hsl.
@@ -1442,16 +1530,16 @@ Definition frame_state (f : frame) : pstate :=
 Definition close_g (f : frame) : gtype := match f with FRule => GEndRuleset | _ => GEndAtRule end.
 
 (* the '}' of a block, read now ... *)
-Lemma step_close p f st0 o rb ts : gap_at (frame_state f :: st0) o -> wf_state p (frame_state f :: st0) (optws o ++ (TRightBrace, rb) :: ts) ->
+Lemma step_close p f st0 gs o rb ts : (gs = [] \/ f <> FAtRules) -> gap_at (frame_state f :: st0) (first_gap gs o) ->
+  wf_state p (frame_state f :: st0) (stream gs o ++ (TRightBrace, rb) :: ts) ->
   exists p', parse_next p = POk (close_g f, p') /\ ptt p' = TRightBrace /\ pdata p' = rb /\ perr p' = false /\
     wf_state p' st0 ts.
 Proof.
-  intros Hg (Hi & Hl & Hst & Hlv & Hpe & Hkw & Hsty).
-  unfold parse_next. cbv zeta. change (prevend (set_buf (set_err p false) [])) with (prevend p). rewrite Hpe.
-  destruct (pop_token_ows (next_fuel p) true (set_buf (set_err p false) []) o TRightBrace rb ts (next_fuel_ok p Hi) Hkw Hl eq_refl (cm_out_no _ _ true (set_buf (set_err p false) []) Hg Hst))
-    as (z' & Hpop & Hl' & Hi').
-  rewrite Hpop. cbn [pbind fst snd].
-  cbn [set_tok relex set_err pst set_buf]. rewrite Hst.
+  intros Hgs Hg Hw. pose proof Hw as (Hi & Hl & Hst & Hlv & Hpe & Hkw & Hsty).
+  assert (Hgs' : gs = [] \/ decl_ctx (frame_state f)).
+  { destruct Hgs as [->|Hf]; [left; reflexivity|right]. destruct f; [left; reflexivity|congruence|right; reflexivity]. }
+  destruct (first_pop p (frame_state f) st0 gs o TRightBrace rb ts Hw Hgs' Hg eq_refl ltac:(discriminate)) as (z' & wf & cf & Hfp & Hl' & Hi').
+  rewrite Hfp. unfold dispatch.
   destruct f; cbn [frame_state close_g];
     [unfold parse_qualified_rule_declaration_list; rewrite skip_semicolons_none by (cbn; discriminate); cbn [pbind]; cbv zeta
     |unfold parse_at_rule_rule_list
@@ -1498,7 +1586,8 @@ Inductive ev :=
   | EAtRule (w1 : ws_t) (name : list Z) (pre : list wtok) (w2 : ws_t) (semi : bool)   (* @name prelude [w2 ';'] *)
   | EBeginAtRule (w1 : ws_t) (name : list Z) (pre : list wtok) (w2 : ws_t)            (* @name prelude w2 '{' *)
   | EEndAtRule (w3 : ws_t)                                                             (* w3 '}' of an at-rule block *)
-  | EUTok (w : ws_t) (t : ttype) (b : list Z).           (* a token inside the block of an unknown at-rule *)
+  | EUTok (w : ws_t) (t : ttype) (b : list Z)            (* a token inside the block of an unknown at-rule *)
+  | ESemi (w : ws_t).                                    (* w ';' : a stray semicolon in a declaration block: no unit *)
 
 Definition term_toks (w : ws_t) (semi : bool) : list tok := if semi then optws w ++ [(TSemicolon, [59])] else [].
 Definition decl_toks (d : decl_t) : list tok :=
@@ -1516,6 +1605,7 @@ Definition ev_toks (e : ev) : list tok :=
   | EBeginAtRule w1 name pre w2 => optws w1 ++ (TAtKeyword, name) :: src_toks pre ++ optws w2 ++ [(TLeftBrace, [123])]
   | EEndAtRule w3 => optws w3 ++ [(TRightBrace, [125])]
   | EUTok w t b => optws w ++ [(t, b)]
+  | ESemi w => optws w ++ [semi]
   end.
 
 (* the value may be empty ("b:;" is reported as a Declaration without values) *)
@@ -1571,6 +1661,7 @@ Fixpoint evs_okm (m : option (Z * bool)) (fs : list frame) (l : list ev) {struct
       end
   | EEndAtRule _ :: r => match fs with (FAtRules | FAtDecls) :: fs' => evs_okm None fs' r | _ => False end
   | EUTok _ _ _ :: _ => False
+  | ESemi _ :: r => decl_top fs /\ evs_okm None fs r
   end
   end.
 Definition evs_ok (fs : list frame) (l : list ev) : Prop := evs_okm None fs l.
@@ -1596,7 +1687,11 @@ Definition ev_unit (e : ev) : unit_t :=
   | EBeginAtRule _ name pre _ => (GBeginAtRule, TAtKeyword, to_lower name, at_buf true false pre)
   | EEndAtRule _ => (GEndAtRule, TRightBrace, [125], [])
   | EUTok _ t b => (GToken, t, b, [])
+  | ESemi _ => (GError, TError, [], [])      (* not used: a stray semicolon has no unit *)
   end.
+(* the units of a list of events: one per event, none for a stray semicolon *)
+Definition ev_units (e : ev) : list unit_t := match e with ESemi _ => [] | _ => [ev_unit e] end.
+Definition units (l : list ev) : list unit_t := flat_map ev_units l.
 
 Definition last_state (p : parser) (tr : list (gtype * parser)) : parser :=
   match rev tr with r :: _ => snd r | [] => p end.
@@ -1653,24 +1748,42 @@ Proof. destruct e2; try contradiction; intros _; eexists; reflexivity. Qed.
 Definition wf_m (m : option (Z * bool)) (p : parser) (fs : list frame) (toks : list tok) : Prop :=
   match m with None => wf_state p (stack fs) toks | Some (lv, first) => wf_unk p lv first (stack fs) toks end.
 
-Lemma evs_run_n : forall n evs m fs p rest, (length evs <= n)%nat ->
-  wf_m m p fs (concat (map ev_toks evs) ++ rest) -> evs_okm m fs evs ->
-  exists tr, parse_run (length evs) p = POk tr /\ map view tr = map ev_unit evs /\ no_err tr /\
+Lemma closer_units e : closer e -> ev_units e = [ev_unit e].
+Proof. destruct e; try contradiction; reflexivity. Qed.
+
+(* gs = the stray semicolons (each with the gap before it) read so far: they belong to the next call *)
+Lemma evs_run_n : forall n evs m fs gs p rest, (length evs <= n)%nat ->
+  wf_m m p fs (semis gs ++ concat (map ev_toks evs) ++ rest) -> evs_okm m fs evs -> (gs <> [] -> m = None /\ decl_top fs) ->
+  exists tr, parse_run (length (units evs)) p = POk tr /\ map view tr = units evs /\ no_err tr /\
     wf_state (last_state p tr) [SStylesheet] rest.
 Proof.
-  induction n as [|n IH]; intros evs m fs p rest Hlen Hw Hok.
-  { destruct evs; [|cbn in Hlen; lia]. destruct m as [[lv first]|]; [contradiction|]. cbn [evs_okm] in Hok. subst fs. exists [].
-    cbn [map concat length parse_run app wf_m] in *. split; [reflexivity|]. split; [reflexivity|]. split; [constructor|exact Hw]. }
-  destruct evs as [|e evs].
-  { destruct m as [[lv first]|]; [contradiction|]. cbn [evs_okm] in Hok. subst fs. exists []. cbn [map concat length parse_run app wf_m] in *.
+  assert (Hnil : forall m fs gs p rest, wf_m m p fs (semis gs ++ concat (map ev_toks []) ++ rest) -> evs_okm m fs [] ->
+                 (gs <> [] -> m = None /\ decl_top fs) ->
+                 exists tr, parse_run (length (units [])) p = POk tr /\ map view tr = units [] /\ no_err tr /\
+                   wf_state (last_state p tr) [SStylesheet] rest).
+  { intros m fs gs p rest Hw Hok Hgs. destruct m as [[lv first]|]; [contradiction|]. cbn [evs_okm] in Hok. subst fs.
+    destruct gs as [|g gs]; [|destruct (Hgs ltac:(discriminate)) as (_ & Hd); contradiction].
+    exists []. cbn [map concat length parse_run app wf_m units flat_map semis] in *.
     split; [reflexivity|]. split; [reflexivity|]. split; [constructor|exact Hw]. }
+  induction n as [|n IH]; intros evs m fs gs p rest Hlen Hw Hok Hgs.
+  { destruct evs; [|cbn in Hlen; lia]. eapply Hnil; eassumption. }
+  destruct evs as [|e evs]; [eapply Hnil; eassumption|].
   cbn [length] in Hlen.
+  (* a stray semicolon: no call, it is read by the call for the next event *)
+  assert (Hsemi_case : forall w, e = ESemi w -> exists tr, parse_run (length (units (e :: evs))) p = POk tr /\ map view tr = units (e :: evs) /\
+                         no_err tr /\ wf_state (last_state p tr) [SStylesheet] rest).
+  { intros w ->. destruct m as [[lv first]|]; [contradiction|]. cbn [evs_okm] in Hok. destruct Hok as (Htop & Hok).
+    apply (IH evs None fs (gs ++ [w]) p rest ltac:(lia)); [|exact Hok|intros _; split; [reflexivity|exact Htop]].
+    cbn [wf_m map concat ev_toks] in *. unfold semis in *. rewrite flat_map_app. cbn [flat_map]. rewrite app_nil_r.
+    repeat (rewrite <- app_assoc in Hw; cbn [app] in Hw). repeat (rewrite <- app_assoc; cbn [app]). exact Hw. }
+  assert (Hgd : gs = [] \/ (m = None /\ decl_top fs)) by (destruct gs; [left; reflexivity|right; apply Hgs; discriminate]).
   assert (Hcons : forall g p1 (u : unit_t) m' fs', parse_next p = POk (g, p1) -> view (g, p1) = u -> perr p1 = false ->
-                  wf_m m' p1 fs' (concat (map ev_toks evs) ++ rest) -> evs_okm m' fs' evs -> u = ev_unit e ->
-                  exists tr, parse_run (length (e :: evs)) p = POk tr /\ map view tr = map ev_unit (e :: evs) /\ no_err tr /\
+                  wf_m m' p1 fs' (concat (map ev_toks evs) ++ rest) -> evs_okm m' fs' evs -> ev_units e = [ev_unit e] -> u = ev_unit e ->
+                  exists tr, parse_run (length (units (e :: evs))) p = POk tr /\ map view tr = units (e :: evs) /\ no_err tr /\
                     wf_state (last_state p tr) [SStylesheet] rest).
-  { intros g p1 u m' fs' Hn Hv He Hw1 Hok1 Hu.
-    destruct (IH evs m' fs' p1 rest ltac:(lia) Hw1 Hok1) as (tr & Hrun & Hview & Hne & Hlast).
+  { intros g p1 u m' fs' Hn Hv He Hw1 Hok1 Hue Hu.
+    destruct (IH evs m' fs' [] p1 rest ltac:(lia) Hw1 Hok1 ltac:(congruence)) as (tr & Hrun & Hview & Hne & Hlast).
+    change (units (e :: evs)) with (ev_units e ++ units evs). rewrite Hue. cbn [app length].
     exists ((g, p1) :: tr). split; [|split; [|split]].
     - cbn [length parse_run]. rewrite Hn. cbn [pbind snd]. rewrite Hrun. reflexivity.
     - cbn [map]. rewrite Hview, Hv, Hu. reflexivity.
@@ -1678,141 +1791,156 @@ Proof.
     - rewrite last_state_cons. exact Hlast. }
   (* inside the block of an unknown at-rule *)
   destruct m as [[lv first]|].
-  { cbn [wf_m] in Hw. destruct e; try contradiction; cbn [evs_okm] in Hok; cbn [map concat ev_toks] in Hw.
+  { assert (gs = []) by (destruct Hgd as [E|(E & _)]; [exact E|discriminate E]). subst gs. cbn [semis flat_map app] in Hw.
+    cbn [wf_m] in Hw. destruct e; try contradiction; cbn [evs_okm] in Hok; cbn [map concat ev_toks] in Hw.
     - destruct Hok as (H0 & Hf & Hok). subst lv. repeat (rewrite <- app_assoc in Hw; cbn [app] in Hw).
       destruct (step_uend p first _ w3 [125] _ (stack_ne fs) Hw Hf) as (p1 & Hn & Ht & Hdd & Hb & He & Hw1).
-      eapply (Hcons _ p1 _ None fs Hn eq_refl He Hw1 Hok). unfold view. cbn [fst snd ev_unit]. rewrite Ht, Hdd. reflexivity.
+      eapply (Hcons _ p1 _ None fs Hn eq_refl He Hw1 Hok eq_refl). unfold view. cbn [fst snd ev_unit]. rewrite Ht, Hdd. reflexivity.
     - destruct Hok as (Hu & Hok). repeat (rewrite <- app_assoc in Hw; cbn [app] in Hw).
       destruct (step_utok p lv first _ w t b _ (stack_ne fs) Hw Hu) as (p1 & Hn & Ht & Hdd & Hb & He & Hw1).
-      eapply (Hcons _ p1 _ (Some (tok_lv lv t, false)) fs Hn eq_refl He Hw1 Hok). unfold view. cbn [fst snd ev_unit]. rewrite Ht, Hdd. reflexivity. }
+      eapply (Hcons _ p1 _ (Some (tok_lv lv t, false)) fs Hn eq_refl He Hw1 Hok eq_refl). unfold view. cbn [fst snd ev_unit]. rewrite Ht, Hdd. reflexivity. }
   cbn [wf_m] in Hw.
   (* the unit is ended by the '}' of its block: two calls *)
   assert (Hcons2 : forall g p1 e2 evs', evs = e2 :: evs' -> closer e2 -> parse_next p = POk (g, p1) -> view (g, p1) = ev_unit e ->
                    perr p1 = false -> wf_pend p1 (stack fs) (concat (map ev_toks evs') ++ rest) -> evs_ok fs evs ->
-                   exists tr, parse_run (length (e :: evs)) p = POk tr /\ map view tr = map ev_unit (e :: evs) /\ no_err tr /\
+                   ev_units e = [ev_unit e] ->
+                   exists tr, parse_run (length (units (e :: evs))) p = POk tr /\ map view tr = units (e :: evs) /\ no_err tr /\
                      wf_state (last_state p tr) [SStylesheet] rest).
-  { intros g p1 e2 evs' -> Hc Hn Hv He Hw1 Hok1.
+  { intros g p1 e2 evs' -> Hc Hn Hv He Hw1 Hok1 Hue.
     destruct (close_pending fs e2 evs' p1 _ Hc Hok1 Hw1) as (fs' & g2 & p2 & Hn2 & Hv2 & He2 & Hw2 & Hok2).
     cbn [length] in Hlen.
-    destruct (IH evs' None fs' p2 rest ltac:(lia) Hw2 Hok2) as (tr & Hrun & Hview & Hne & Hlast).
+    destruct (IH evs' None fs' [] p2 rest ltac:(lia) Hw2 Hok2 ltac:(congruence)) as (tr & Hrun & Hview & Hne & Hlast).
+    change (units (e :: e2 :: evs')) with (ev_units e ++ ev_units e2 ++ units evs'). rewrite Hue, (closer_units e2 Hc). cbn [app length].
     exists ((g, p1) :: (g2, p2) :: tr). split; [|split; [|split]].
     - cbn [length parse_run]. rewrite Hn. cbn [pbind snd]. rewrite Hn2. cbn [pbind snd]. rewrite Hrun. reflexivity.
     - cbn [map]. rewrite Hview, Hv, Hv2. reflexivity.
     - constructor; [exact He|]. constructor; [exact He2|exact Hne].
     - rewrite !last_state_cons. exact Hlast. }
   destruct (stack_top fs) as (s & st0 & Hstk & Hs1 & Hs2 & Hdc & Hrc).
-  destruct e as [[w1 prop w2 vl w4 semi]|onest sel w2|w3|wc cb|wt tt tb|cw1 cname cw2 craw csemi|aw1 aname apre aw2 asemi|bw1 bname bpre bw2|ew3|uw ut ub];
-    cbn [evs_okm] in Hok; cbn [map concat ev_toks] in Hw; [| | | | | | | | |contradiction].
+  assert (Hgd' : gs = [] \/ decl_top fs) by (destruct Hgd as [E|(_ & E)]; auto). clear Hgd.
+  assert (Hgsd : gs = [] \/ decl_ctx s) by (destruct Hgd' as [E|E]; [left; exact E|right; apply Hdc; exact E]).
+  assert (Hggap : forall o, gap_at (s :: st0) o -> gap_at (s :: st0) (first_gap gs o)).
+  { intros o Ho. destruct gs as [|g gs']; [exact Ho|]. cbn [first_gap]. rewrite <- Hstk. apply gap_stack. intros E.
+    destruct Hgd' as [E0|E0]; [discriminate E0|subst fs; contradiction]. }
+  assert (Hgnil : ~ decl_top fs -> gs = []) by (intros Hn; destruct Hgd' as [E|E]; [exact E|contradiction]).
+  destruct e as [[w1 prop w2 vl w4 semi]|onest sel w2|w3|wc cb|wt tt tb|cw1 cname cw2 craw csemi|aw1 aname apre aw2 asemi|bw1 bname bpre bw2|ew3|uw ut ub|sw];
+    cbn [evs_okm] in Hok; cbn [map concat ev_toks] in Hw; [| | | | | | | | |contradiction|eapply Hsemi_case; reflexivity]; clear Hsemi_case.
   - (* declaration *)
     destruct Hok as (Htop & (Hp & Hq) & Hsemi & Hok). cbn [d_vals d_semi] in *. specialize (Hdc Htop).
     assert (Hg : gap_at (s :: st0) w1) by (rewrite <- Hstk; apply gap_stack; intros E; subst fs; contradiction).
     rewrite Hstk in Hw.
     unfold decl_toks, term_toks in Hw. cbn [d_w1 d_prop d_w2 d_vals d_w4 d_semi] in Hw. destruct semi.
-    + repeat (rewrite <- app_assoc in Hw; cbn [app] in Hw).
-      destruct (step_decl p s st0 w1 prop w2 [58] vl w4 (TSemicolon, [59]) _ Hdc Hg (or_introl eq_refl) Hw Hp Hq) as (p1 & Hn & Ht & Hdd & Hb & He & Hw1).
+    + repeat (rewrite <- app_assoc in Hw; cbn [app] in Hw). rewrite (app_assoc (semis gs)) in Hw.
+      destruct (step_decl p s st0 gs w1 prop w2 [58] vl w4 (TSemicolon, [59]) _ Hdc (Hggap _ Hg) (or_introl eq_refl) Hw Hp Hq) as (p1 & Hn & Ht & Hdd & Hb & He & Hw1).
       unfold wf_after in Hw1. cbn [fst] in Hw1. change (is_t TSemicolon TRightBrace) with false in Hw1. cbv beta iota in Hw1. rewrite <- Hstk in Hw1.
-      eapply (Hcons _ p1 _ None fs Hn eq_refl He Hw1 Hok). unfold view. cbn [fst snd ev_unit d_prop d_vals]. rewrite Ht, Hdd, Hb. reflexivity.
+      eapply (Hcons _ p1 _ None fs Hn eq_refl He Hw1 Hok eq_refl). unfold view. cbn [fst snd ev_unit d_prop d_vals]. rewrite Ht, Hdd, Hb. reflexivity.
     + specialize (Hsemi eq_refl). destruct evs as [|e2 evs']; [contradiction|]. cbn [closer_next] in Hsemi.
       destruct (closer_toks e2 Hsemi) as (w3 & Ew3). cbn [map concat] in Hw. rewrite Ew3 in Hw.
-      repeat (rewrite <- app_assoc in Hw; cbn [app] in Hw).
-      destruct (step_decl p s st0 w1 prop w2 [58] vl w3 (TRightBrace, [125]) _ Hdc Hg (or_intror eq_refl) Hw Hp Hq) as (p1 & Hn & Ht & Hdd & Hb & He & Hw1).
+      repeat (rewrite <- app_assoc in Hw; cbn [app] in Hw). rewrite (app_assoc (semis gs)) in Hw.
+      destruct (step_decl p s st0 gs w1 prop w2 [58] vl w3 (TRightBrace, [125]) _ Hdc (Hggap _ Hg) (or_intror eq_refl) Hw Hp Hq) as (p1 & Hn & Ht & Hdd & Hb & He & Hw1).
       unfold wf_after in Hw1. cbn [fst] in Hw1. change (is_t TRightBrace TRightBrace) with true in Hw1. cbv beta iota in Hw1. rewrite <- Hstk in Hw1.
-      eapply (Hcons2 _ p1 e2 evs' eq_refl Hsemi Hn); [|exact He|exact Hw1|exact Hok].
+      eapply (Hcons2 _ p1 e2 evs' eq_refl Hsemi Hn); [|exact He|exact Hw1|exact Hok|reflexivity].
       unfold view. cbn [fst snd ev_unit d_prop d_vals]. rewrite Ht, Hdd, Hb. reflexivity.
   - (* ruleset *)
     destruct Hok as ((Hf1 & Hf2 & Hf3) & Hnest & Htg & Hok). destruct sel as [|[o1 [t1 b1]] sl]; [contradiction|]. cbn [fst snd] in Hf1, Htg.
     assert (Hg : gap_at (s :: st0) o1) by (rewrite <- Hstk; apply gap_stack; exact Htg).
-    repeat (rewrite <- app_assoc in Hw; cbn [app] in Hw). rewrite Hstk in Hw.
+    rewrite src_toks_cons in Hw. repeat (rewrite <- app_assoc in Hw; cbn [app] in Hw). rewrite Hstk in Hw.
     assert (Hcase : decl_top fs \/ ~ decl_top fs) by (destruct fs as [|[| |] fs0]; cbn [decl_top]; auto).
     destruct Hcase as [Htop|Htop].
     + assert (Hnf : nest_first (t1, b1) = true) by (destruct fs as [|[| |] fs0]; cbn [decl_top] in Htop; try contradiction; exact Hf1).
       assert (Hon : onest = true) by (rewrite Hnest; destruct fs as [|[| |] fs0]; cbn [decl_top] in Htop; try contradiction; reflexivity).
       clear Hnest. subst onest.
-      destruct (step_nested p s st0 o1 t1 b1 sl w2 [123] _ (Hdc Htop) Hg Hw Hnf Hf2 Hf3) as (p1 & Hn & Ht & Hdd & Hb & He & Hw1).
+      rewrite (app_assoc (semis gs)) in Hw.
+      destruct (step_nested p s st0 gs o1 t1 b1 sl w2 [123] _ (Hdc Htop) (Hggap _ Hg) Hw Hnf Hf2 Hf3) as (p1 & Hn & Ht & Hdd & Hb & He & Hw1).
       rewrite <- Hstk in Hw1. change (SQualifiedRuleDeclarationList :: stack fs) with (stack (FRule :: fs)) in Hw1.
-      eapply (Hcons _ p1 _ None (FRule :: fs) Hn eq_refl He Hw1 Hok). unfold view. cbn [fst snd ev_unit]. rewrite Ht, Hdd, Hb. reflexivity.
+      eapply (Hcons _ p1 _ None (FRule :: fs) Hn eq_refl He Hw1 Hok eq_refl). unfold view. cbn [fst snd ev_unit]. rewrite Ht, Hdd, Hb. reflexivity.
     + assert (Hsf : sel_first t1 = true) by (destruct fs as [|[| |] fs0]; cbn [decl_top] in Htop; try (exfalso; apply Htop; exact I); exact Hf1).
       assert (Hon : onest = false) by (rewrite Hnest; destruct fs as [|[| |] fs0]; cbn [decl_top] in Htop; try (exfalso; apply Htop; exact I); reflexivity).
       clear Hnest. subst onest.
+      rewrite (Hgnil Htop) in Hw. cbn [semis flat_map app] in Hw. rewrite <- src_toks_cons in Hw.
       destruct (step_begin p s st0 o1 t1 b1 sl w2 [123] _ (Hrc Htop) Hg Hw Hsf Hf2 Hf3) as (p1 & Hn & Ht & Hdd & Hb & He & Hw1).
       rewrite <- Hstk in Hw1. change (SQualifiedRuleDeclarationList :: stack fs) with (stack (FRule :: fs)) in Hw1.
-      eapply (Hcons _ p1 _ None (FRule :: fs) Hn eq_refl He Hw1 Hok). unfold view. cbn [fst snd ev_unit]. rewrite Ht, Hdd, Hb. reflexivity.
+      eapply (Hcons _ p1 _ None (FRule :: fs) Hn eq_refl He Hw1 Hok eq_refl). unfold view. cbn [fst snd ev_unit]. rewrite Ht, Hdd, Hb. reflexivity.
   - (* '}' of a ruleset *)
     destruct fs as [|[| |] fs]; try contradiction. unfold stack in Hw. cbn [map app] in Hw.
-    repeat (rewrite <- app_assoc in Hw; cbn [app] in Hw).
-    destruct (step_close p FRule _ w3 [125] _ (gap_block FRule fs w3) Hw) as (p1 & Hn & Ht & Hdd & He & Hw1).
-    eapply (Hcons _ p1 _ None fs Hn eq_refl He Hw1 Hok). unfold view. cbn [fst snd ev_unit close_g]. rewrite Ht, Hdd. reflexivity.
-  - destruct Hok as (Hd & Hnc & Hok). subst fs. unfold stack in Hw. cbn [map app] in Hw.
+    repeat (rewrite <- app_assoc in Hw; cbn [app] in Hw). rewrite (app_assoc (semis gs)) in Hw.
+    assert (Hnf : FRule <> FAtRules) by discriminate.
+    destruct (step_close p FRule (stack fs) gs w3 [125] _ (or_intror Hnf) (gap_block FRule fs (first_gap gs w3)) Hw) as (p1 & Hn & Ht & Hdd & He & Hw1).
+    eapply (Hcons _ p1 _ None fs Hn eq_refl He Hw1 Hok eq_refl). unfold view. cbn [fst snd ev_unit close_g]. rewrite Ht, Hdd. reflexivity.
+  - destruct Hok as (Hd & Hnc & Hok). subst fs. rewrite (Hgnil ltac:(intros H; exact H)) in Hw. cbn [semis flat_map app] in Hw. unfold stack in Hw. cbn [map app] in Hw.
     repeat (rewrite <- app_assoc in Hw; cbn [app] in Hw).
     destruct (step_comment p wc cb _ Hw Hnc) as (p1 & Hn & Ht & Hdd & He & Hw1).
-    eapply (Hcons _ p1 _ None [] Hn eq_refl He Hw1 Hok). unfold view. cbn [fst snd ev_unit]. rewrite Ht, Hdd. reflexivity.
-  - destruct Hok as (Hd & Hcd & Hnc & Hok). subst fs. unfold stack in Hw. cbn [map app] in Hw.
+    eapply (Hcons _ p1 _ None [] Hn eq_refl He Hw1 Hok eq_refl). unfold view. cbn [fst snd ev_unit]. rewrite Ht, Hdd. reflexivity.
+  - destruct Hok as (Hd & Hcd & Hnc & Hok). subst fs. rewrite (Hgnil ltac:(intros H; exact H)) in Hw. cbn [semis flat_map app] in Hw. unfold stack in Hw. cbn [map app] in Hw.
     repeat (rewrite <- app_assoc in Hw; cbn [app] in Hw).
     destruct (step_cd p wt tt tb _ Hw Hcd Hnc) as (p1 & Hn & Ht & Hdd & He & Hw1).
-    eapply (Hcons _ p1 _ None [] Hn eq_refl He Hw1 Hok). unfold view. cbn [fst snd ev_unit]. rewrite Ht, Hdd. reflexivity.
+    eapply (Hcons _ p1 _ None [] Hn eq_refl He Hw1 Hok eq_refl). unfold view. cbn [fst snd ev_unit]. rewrite Ht, Hdd. reflexivity.
   - (* custom property *)
     destruct Hok as (Htg & Htop & Hr1 & Hr2 & Hsemi & Hok).
     assert (Hg : gap_at (s :: st0) cw1) by (rewrite <- Hstk; apply gap_stack; exact Htg).
     assert (Hcc : custom_ctx s).
     { destruct Htop as [Htop|(-> & _)]; [left; exact (Hdc Htop)|]. right. unfold stack in Hstk. cbn [map app] in Hstk. congruence. }
     clear Hdc. rename Hcc into Hdc. rewrite Hstk in Hw. destruct csemi.
-    + repeat (rewrite <- app_assoc in Hw; cbn [app] in Hw).
-      destruct (step_custom p s st0 cw1 cname cw2 [58] craw (TSemicolon, [59]) _ Hdc Hg (or_introl eq_refl) Hw Hr1 Hr2) as (p1 & Hn & Ht & Hdd & Hb & He & Hw1).
+    + repeat (rewrite <- app_assoc in Hw; cbn [app] in Hw). rewrite (app_assoc (semis gs)) in Hw.
+      destruct (step_custom p s st0 gs cw1 cname cw2 [58] craw (TSemicolon, [59]) _ Hdc Hgsd (Hggap _ Hg) (or_introl eq_refl) Hw Hr1 Hr2) as (p1 & Hn & Ht & Hdd & Hb & He & Hw1).
       unfold wf_after in Hw1. cbn [fst] in Hw1. change (is_t TSemicolon TRightBrace) with false in Hw1. cbv beta iota in Hw1. rewrite <- Hstk in Hw1.
-      eapply (Hcons _ p1 _ None fs Hn eq_refl He Hw1 Hok). unfold view. cbn [fst snd ev_unit]. rewrite Ht, Hdd, Hb. reflexivity.
+      eapply (Hcons _ p1 _ None fs Hn eq_refl He Hw1 Hok eq_refl). unfold view. cbn [fst snd ev_unit]. rewrite Ht, Hdd, Hb. reflexivity.
     + specialize (Hsemi eq_refl). destruct evs as [|e2 evs']; [contradiction|].
       assert (Hcl : closer e2 /\ ev_toks e2 = [(TRightBrace, [125])]).
-      { cbn [closer_tight] in Hsemi. destruct e2 as [| | [|] | | | | | | [|] |]; try contradiction; split; try exact I; reflexivity. }
+      { cbn [closer_tight] in Hsemi. destruct e2 as [| | [|] | | | | | | [|] | |]; try contradiction; split; try exact I; reflexivity. }
       destruct Hcl as (Hcl & Ew3). cbn [map concat] in Hw. rewrite Ew3 in Hw.
-      repeat (rewrite <- app_assoc in Hw; cbn [app] in Hw).
-      destruct (step_custom p s st0 cw1 cname cw2 [58] craw (TRightBrace, [125]) _ Hdc Hg (or_intror eq_refl) Hw Hr1 Hr2) as (p1 & Hn & Ht & Hdd & Hb & He & Hw1).
+      repeat (rewrite <- app_assoc in Hw; cbn [app] in Hw). rewrite (app_assoc (semis gs)) in Hw.
+      destruct (step_custom p s st0 gs cw1 cname cw2 [58] craw (TRightBrace, [125]) _ Hdc Hgsd (Hggap _ Hg) (or_intror eq_refl) Hw Hr1 Hr2) as (p1 & Hn & Ht & Hdd & Hb & He & Hw1).
       unfold wf_after in Hw1. cbn [fst] in Hw1. change (is_t TRightBrace TRightBrace) with true in Hw1. cbv beta iota in Hw1. rewrite <- Hstk in Hw1.
-      eapply (Hcons2 _ p1 e2 evs' eq_refl Hcl Hn); [|exact He|exact Hw1|exact Hok].
+      eapply (Hcons2 _ p1 e2 evs' eq_refl Hcl Hn); [|exact He|exact Hw1|exact Hok|reflexivity].
       unfold view. cbn [fst snd ev_unit]. rewrite Ht, Hdd, Hb. reflexivity.
   - (* at-rule without block *)
     destruct Hok as (Htg & Hp1 & Hp2 & Hsemi & Hok).
     assert (Hg : gap_at (s :: st0) aw1) by (rewrite <- Hstk; apply gap_stack; exact Htg).
     rewrite Hstk in Hw. unfold term_toks in Hw. destruct asemi.
-    + repeat (rewrite <- app_assoc in Hw; cbn [app] in Hw).
-      destruct (step_at p s st0 aw1 aname apre aw2 (TSemicolon, [59]) _ Hs1 Hs2 Hg Hw Hp1 Hp2 (or_introl (or_introl eq_refl))) as (p1 & Hn & Ht & Hdd & Hb & He & Hw1).
+    + repeat (rewrite <- app_assoc in Hw; cbn [app] in Hw). rewrite (app_assoc (semis gs)) in Hw.
+      destruct (step_at p s st0 gs aw1 aname apre aw2 (TSemicolon, [59]) _ Hs1 Hs2 Hgsd (Hggap _ Hg) Hw Hp1 Hp2 (or_introl (or_introl eq_refl))) as (p1 & Hn & Ht & Hdd & Hb & He & Hw1).
       cbn [fst] in Hn, Hw1. change (is_t TSemicolon TLeftBrace) with false in Hn, Hw1. cbv beta iota in Hn, Hw1.
       unfold wf_after in Hw1. cbn [fst] in Hw1. change (is_t TSemicolon TRightBrace) with false in Hw1. cbv beta iota in Hw1. rewrite <- Hstk in Hw1.
-      eapply (Hcons _ p1 _ None fs Hn eq_refl He Hw1 Hok). unfold view. cbn [fst snd ev_unit]. rewrite Ht, Hdd, Hb. reflexivity.
+      eapply (Hcons _ p1 _ None fs Hn eq_refl He Hw1 Hok eq_refl). unfold view. cbn [fst snd ev_unit]. rewrite Ht, Hdd, Hb. reflexivity.
     + destruct (Hsemi eq_refl) as (Hfs & Hcn). destruct evs as [|e2 evs']; [contradiction|]. cbn [closer_next] in Hcn.
       destruct (closer_toks e2 Hcn) as (w3 & Ew3). cbn [map concat] in Hw. rewrite Ew3 in Hw.
-      repeat (rewrite <- app_assoc in Hw; cbn [app] in Hw).
-      destruct (step_at p s st0 aw1 aname apre w3 (TRightBrace, [125]) _ Hs1 Hs2 Hg Hw Hp1 Hp2 (or_introl (or_intror eq_refl))) as (p1 & Hn & Ht & Hdd & Hb & He & Hw1).
+      repeat (rewrite <- app_assoc in Hw; cbn [app] in Hw). rewrite (app_assoc (semis gs)) in Hw.
+      destruct (step_at p s st0 gs aw1 aname apre w3 (TRightBrace, [125]) _ Hs1 Hs2 Hgsd (Hggap _ Hg) Hw Hp1 Hp2 (or_introl (or_intror eq_refl))) as (p1 & Hn & Ht & Hdd & Hb & He & Hw1).
       cbn [fst] in Hn, Hw1. change (is_t TRightBrace TLeftBrace) with false in Hn, Hw1. cbv beta iota in Hn, Hw1.
       unfold wf_after in Hw1. cbn [fst] in Hw1. change (is_t TRightBrace TRightBrace) with true in Hw1. cbv beta iota in Hw1. rewrite <- Hstk in Hw1.
-      eapply (Hcons2 _ p1 e2 evs' eq_refl Hcn Hn); [|exact He|exact Hw1|exact Hok].
+      eapply (Hcons2 _ p1 e2 evs' eq_refl Hcn Hn); [|exact He|exact Hw1|exact Hok|reflexivity].
       unfold view. cbn [fst snd ev_unit]. rewrite Ht, Hdd, Hb. reflexivity.
   - (* at-rule with block *)
     destruct Hok as (Htg & Hp1 & Hp2 & Hok).
     assert (Hg : gap_at (s :: st0) bw1) by (rewrite <- Hstk; apply gap_stack; exact Htg).
     rewrite Hstk in Hw.
-    repeat (rewrite <- app_assoc in Hw; cbn [app] in Hw).
-    destruct (step_at p s st0 bw1 bname bpre bw2 (TLeftBrace, [123]) _ Hs1 Hs2 Hg Hw Hp1 Hp2 (or_intror eq_refl)) as (p1 & Hn & Ht & Hdd & Hb & He & Hw1).
+    repeat (rewrite <- app_assoc in Hw; cbn [app] in Hw). rewrite (app_assoc (semis gs)) in Hw.
+    destruct (step_at p s st0 gs bw1 bname bpre bw2 (TLeftBrace, [123]) _ Hs1 Hs2 Hgsd (Hggap _ Hg) Hw Hp1 Hp2 (or_intror eq_refl)) as (p1 & Hn & Ht & Hdd & Hb & He & Hw1).
     cbn [fst] in Hn, Hw1. change (is_t TLeftBrace TLeftBrace) with true in Hn, Hw1. cbv beta iota in Hn, Hw1. rewrite <- Hstk in Hw1.
     destruct (at_st bname) eqn:Est; try contradiction.
     + change (SAtRuleRuleList :: stack fs) with (stack (FAtRules :: fs)) in Hw1.
-      eapply (Hcons _ p1 _ None (FAtRules :: fs) Hn eq_refl He Hw1 Hok). unfold view. cbn [fst snd ev_unit]. rewrite Ht, Hdd, Hb. reflexivity.
+      eapply (Hcons _ p1 _ None (FAtRules :: fs) Hn eq_refl He Hw1 Hok eq_refl). unfold view. cbn [fst snd ev_unit]. rewrite Ht, Hdd, Hb. reflexivity.
     + change (SAtRuleDeclarationList :: stack fs) with (stack (FAtDecls :: fs)) in Hw1.
-      eapply (Hcons _ p1 _ None (FAtDecls :: fs) Hn eq_refl He Hw1 Hok). unfold view. cbn [fst snd ev_unit]. rewrite Ht, Hdd, Hb. reflexivity.
+      eapply (Hcons _ p1 _ None (FAtDecls :: fs) Hn eq_refl He Hw1 Hok eq_refl). unfold view. cbn [fst snd ev_unit]. rewrite Ht, Hdd, Hb. reflexivity.
     + assert (Hwu : wf_m (Some (0, true)) p1 fs (concat (map ev_toks evs) ++ rest)) by exact Hw1.
-      eapply (Hcons _ p1 _ (Some (0, true)) fs Hn eq_refl He Hwu Hok). unfold view. cbn [fst snd ev_unit]. rewrite Ht, Hdd, Hb. reflexivity.
+      eapply (Hcons _ p1 _ (Some (0, true)) fs Hn eq_refl He Hwu Hok eq_refl). unfold view. cbn [fst snd ev_unit]. rewrite Ht, Hdd, Hb. reflexivity.
   - (* '}' of an at-rule block *)
     destruct fs as [|[| |] fs]; try contradiction; unfold stack in Hw; cbn [map app] in Hw;
       repeat (rewrite <- app_assoc in Hw; cbn [app] in Hw).
-    + destruct (step_close p FAtRules _ ew3 [125] _ (gap_block FAtRules fs ew3) Hw) as (p1 & Hn & Ht & Hdd & He & Hw1).
-      eapply (Hcons _ p1 _ None fs Hn eq_refl He Hw1 Hok). unfold view. cbn [fst snd ev_unit close_g]. rewrite Ht, Hdd. reflexivity.
-    + destruct (step_close p FAtDecls _ ew3 [125] _ (gap_block FAtDecls fs ew3) Hw) as (p1 & Hn & Ht & Hdd & He & Hw1).
-      eapply (Hcons _ p1 _ None fs Hn eq_refl He Hw1 Hok). unfold view. cbn [fst snd ev_unit close_g]. rewrite Ht, Hdd. reflexivity.
+    + rewrite (Hgnil ltac:(intros H; exact H)) in Hw. cbn [semis flat_map app] in Hw.
+      destruct (step_close p FAtRules (stack fs) [] ew3 [125] _ (or_introl eq_refl) (gap_block FAtRules fs ew3) Hw) as (p1 & Hn & Ht & Hdd & He & Hw1).
+      eapply (Hcons _ p1 _ None fs Hn eq_refl He Hw1 Hok eq_refl). unfold view. cbn [fst snd ev_unit close_g]. rewrite Ht, Hdd. reflexivity.
+    + rewrite (app_assoc (semis gs)) in Hw.
+      assert (Hnf : FAtDecls <> FAtRules) by discriminate.
+      destruct (step_close p FAtDecls (stack fs) gs ew3 [125] _ (or_intror Hnf) (gap_block FAtDecls fs (first_gap gs ew3)) Hw) as (p1 & Hn & Ht & Hdd & He & Hw1).
+      eapply (Hcons _ p1 _ None fs Hn eq_refl He Hw1 Hok eq_refl). unfold view. cbn [fst snd ev_unit close_g]. rewrite Ht, Hdd. reflexivity.
 Qed.
 
 Lemma evs_run evs fs p rest : wf_state p (stack fs) (concat (map ev_toks evs) ++ rest) -> evs_ok fs evs ->
-  exists tr, parse_run (length evs) p = POk tr /\ map view tr = map ev_unit evs /\ no_err tr /\
+  exists tr, parse_run (length (units evs)) p = POk tr /\ map view tr = units evs /\ no_err tr /\
     wf_state (last_state p tr) [SStylesheet] rest.
-Proof. apply (evs_run_n (length evs) evs None). lia. Qed.
+Proof. intros Hw Hok. apply (evs_run_n (length evs) evs None fs [] p rest); [lia|exact Hw|exact Hok|congruence]. Qed.
 
 Lemma parse_run_snoc : forall a p tr1 r, parse_run a p = POk tr1 -> parse_next (last_state p tr1) = POk r ->
   parse_run (a + 1) p = POk (tr1 ++ [r]).
@@ -1830,8 +1958,8 @@ Qed.
    error is reported. *)
 Lemma cssparse_wellformed_proof : forall d evs w,
   css_lex d = LexDone (concat (map ev_toks evs) ++ optws w) -> evs_ok [] evs -> iscm w = false ->
-  exists tr, parse_run (length evs + 1) (new_parser d false) = POk tr /\
-    map view tr = map ev_unit evs ++ [(GError, TError, [], [])] /\ no_err tr.
+  exists tr, parse_run (length (units evs) + 1) (new_parser d false) = POk tr /\
+    map view tr = units evs ++ [(GError, TError, [], [])] /\ no_err tr.
 Proof.
   intros d evs w Hlex Hok Hnc.
   assert (Hw : wf_state (new_parser d false) (stack []) (concat (map ev_toks evs) ++ optws w)).
@@ -2047,6 +2175,21 @@ Example wellformed_example_comments :
      (GBeginRuleset, TWhitespace, [], [(TIdent, [120]); sp; (TIdent, [121])]); (GEndRuleset, TRightBrace, [125], []);
      (GEndRuleset, TRightBrace, [125], []);
      (GBeginRuleset, TWhitespace, [], [(TIdent, [103]); (TIdent, [104])]); (GEndRuleset, TRightBrace, [125], [])].
+Proof.
+  cbv zeta. split; [vm_compute; reflexivity|]. split; [|vm_compute; reflexivity].
+  unfold evs_ok. cbn [evs_okm]. repeat (first [discriminate | reflexivity | lia | left; exact I | split | exact I | vm_compute; reflexivity | intros _ | intros ?]).
+Qed.
+
+(* "a{;b:c;;d:e;}" : stray semicolons are skipped without a unit *)
+Example wellformed_example_semis :
+  let evs := [EOpen false [([], (TIdent, [97]))] []; ESemi [];
+              EDecl (mkDecl [] [98] [] [([], (TIdent, [99]))] [] true); ESemi [];
+              EDecl (mkDecl [] [100] [] [([], (TIdent, [101]))] [] true); EClose []] in
+  css_lex [97; 123; 59; 98; 58; 99; 59; 59; 100; 58; 101; 59; 125] = LexDone (concat (map ev_toks evs) ++ optws []) /\
+  evs_ok [] evs /\
+  units evs =
+    [(GBeginRuleset, TWhitespace, [], [(TIdent, [97])]); (GDeclaration, TIdent, [98], [(TIdent, [99])]);
+     (GDeclaration, TIdent, [100], [(TIdent, [101])]); (GEndRuleset, TRightBrace, [125], [])].
 Proof.
   cbv zeta. split; [vm_compute; reflexivity|]. split; [|vm_compute; reflexivity].
   unfold evs_ok. cbn [evs_okm]. repeat (first [discriminate | reflexivity | lia | left; exact I | split | exact I | vm_compute; reflexivity | intros _ | intros ?]).
